@@ -976,10 +976,15 @@ impl<R: std::io::Read> FlacChannelReader<R> {
                 .map(|c| &c[self.consumed..])
                 .collect())
         } else {
-            self.consumed = 0;
             let channels = usize::from(self.decoder.channel_count().get());
             match self.decoder.read_frame()? {
-                Some(frame) => Ok(frame.channels().collect()),
+                Some(frame) => {
+                    // only a freshly decoded frame may be handed out from its start;
+                    // at the end of the stream (or after an error) the previous
+                    // frame must stay consumed
+                    self.consumed = 0;
+                    Ok(frame.channels().collect())
+                }
                 None => Ok(vec![&[]; channels]),
             }
         }
